@@ -19,6 +19,7 @@ import (
 	"math/rand"
 	"os"
 	"strings"
+	"sync/atomic"
 	"time"
 
 	"verif/internal/drive"
@@ -79,38 +80,71 @@ func baseScenarioX(r *rand.Rand, idx string, parallelBias, rich bool) *fullsync.
 }
 
 // parseOnly runs the tool's parser (and the expansion of every entry) over data.
-// Returns whether an error entry was delivered, whether Done was delivered without a preceding error.
-func parseOnly(data []byte) (sawErr bool, doneWithoutErr bool, entries int) {
-	pipe := rdb.ParseRdb(bytes.NewReader(data), nil, 16)
-	for e := range pipe {
-		if e.Err != nil {
-			sawErr = true
-			continue
-		}
-		if e.Done {
-			if !sawErr {
-				doneWithoutErr = true
+// Returns whether an error entry was delivered, whether Done was delivered without a preceding
+// error, and hung=true when the parse neither finished nor made any logical progress (entries
+// delivered, commands emitted by an expansion) during two consecutive 3 s windows.
+func parseOnly(data []byte) (sawErr bool, doneWithoutErr bool, entries int, hung bool) {
+	var progress atomic.Int64
+	type result struct {
+		sawErr, done bool
+		entries      int
+	}
+	ch := make(chan result, 1)
+	go func() {
+		var r result
+		pipe := rdb.ParseRdb(bytes.NewReader(data), nil, 16)
+		for e := range pipe {
+			progress.Add(1)
+			if e.Err != nil {
+				r.sawErr = true
+				continue
 			}
-			continue
+			if e.Done {
+				if !r.sawErr {
+					r.done = true
+				}
+				continue
+			}
+			r.entries++
+			if e.ObjectParser != nil {
+				func() {
+					defer func() { recover() }() // the replay path converts expansion panics into errors
+					n := 0
+					e.ObjectParser.ExecCmd(func(cmd string, args ...interface{}) error {
+						progress.Add(1)
+						// a real target answers the commands; a damaged value that expands into an endless
+						// command sequence is stopped by the target's first error reply.  Only an expansion
+						// that spins WITHOUT emitting commands is a hang of the tool itself.
+						if n++; n > 200000 {
+							return fmt.Errorf("target error (expansion of a %d-byte snapshot exceeded 200000 commands)", len(data))
+						}
+						return nil
+					})
+				}()
+			}
 		}
-		entries++
-		if e.ObjectParser != nil {
-			func() {
-				defer func() { recover() }() // the replay path converts expansion panics into errors
-				n := 0
-				e.ObjectParser.ExecCmd(func(cmd string, args ...interface{}) error {
-					// a real target answers the commands; a damaged value that expands into an endless
-					// command sequence is stopped by the target's first error reply.  Only an expansion
-					// that spins WITHOUT emitting commands is a hang of the tool itself.
-					if n++; n > 200000 {
-						return fmt.Errorf("target error (expansion of a %d-byte snapshot exceeded 200000 commands)", len(data))
-					}
-					return nil
-				})
-			}()
+		ch <- r
+	}()
+	idle := 0
+	last := int64(-1)
+	wait := 10 * time.Second
+	for {
+		select {
+		case r := <-ch:
+			return r.sawErr, r.done, r.entries, false
+		case <-time.After(wait):
+		}
+		wait = 3 * time.Second
+		if p := progress.Load(); p == last {
+			idle++
+		} else {
+			idle = 0
+			last = p
+		}
+		if idle >= 2 {
+			return false, false, 0, true
 		}
 	}
-	return
 }
 
 func alterations(b byte) [3]byte { return [3]byte{b + 1, b ^ 0x80, 0xFF} }
@@ -135,7 +169,7 @@ func main() {
 		fmt.Fprintf(stdout, format+"\n", a...)
 		stdout.Flush()
 	}
-	harness.RunSharded(run, keys, harness.ShardOptions{PerCaseTimeout: 120 * time.Second,
+	harness.RunSharded(run, keys, harness.ShardOptions{PerCaseTimeout: 20 * time.Minute,
 		AbnormalSig: func(key, why, tail string) (string, string) {
 			cls := strings.SplitN(key, "-", 2)[0]
 			last := ""
@@ -161,14 +195,21 @@ func main() {
 		switch cls {
 		case "trunc":
 			// sanity: the intact file parses
-			if e, d, _ := parseOnly(file); e || !d {
+			if e, d, _, _ := parseOnly(file); e || !d {
 				res.Inconc("intact snapshot does not parse (err=%v done=%v)", e, d)
 				return
 			}
 			for l := 0; l < len(file); l++ {
 				progress("P trunc %s len=%d", idx, l)
-				sawErr, done, _ := parseOnly(file[:l])
+				sawErr, done, _, hung := parseOnly(file[:l])
 				res.Evals++
+				if hung {
+					w := describe()
+					w["truncated_to"] = l
+					res.Violation("damaged-snapshot-parse-hangs|trunc", fmt.Sprintf("snapshot cut to %d of %d bytes: parser/expansion neither finished nor made progress", l, len(file)), w)
+					res.RestartWorker = true
+					return
+				}
 				if done || !sawErr {
 					w := describe()
 					w["truncated_to"] = l
@@ -188,8 +229,15 @@ func main() {
 					progress("P alter %s pos=%d alt=%d", idx, p, ai)
 					mut := append([]byte{}, file...)
 					mut[p] = nb
-					sawErr, done, _ := parseOnly(mut)
+					sawErr, done, _, hung := parseOnly(mut)
 					res.Evals++
+					if hung {
+						w := describe()
+						w["position"], w["new_byte"] = p, nb
+						res.Violation("damaged-snapshot-parse-hangs|alter|"+regionOf(sc, p), fmt.Sprintf("byte %d changed %#x→%#x: parser/expansion neither finished nor made progress", p, file[p], nb), w)
+						res.RestartWorker = true
+						return
+					}
 					if (done || !sawErr) && bad < 3 {
 						bad++
 						w := describe()
@@ -202,7 +250,7 @@ func main() {
 			for p := len(file) - 8; p < len(file); p++ {
 				mut := append([]byte{}, file...)
 				mut[p] ^= 0x80
-				sawErr, done, _ := parseOnly(mut)
+				sawErr, done, _, _ := parseOnly(mut)
 				res.Evals++
 				if done || !sawErr {
 					w := describe()
@@ -249,7 +297,7 @@ func main() {
 				w["damage"], w["at"], w["send_error"] = kind, where, fmt.Sprint(out.Err)
 				switch {
 				case !out.Returned:
-					res.Violation("damaged-snapshot-replay-hangs|"+kind+"|"+path, "Send did not return within 75 s", w)
+					res.Violation("damaged-snapshot-replay-hangs|"+kind+"|"+path, "Send did not return and made no progress for two 3 s windows", w)
 				case out.Err == nil:
 					res.Violation("damaged-snapshot-reported-complete|"+kind+"|"+path, fmt.Sprintf("Send returned nil for a snapshot with %s at %d", kind, where), w)
 				case hasCp(out, sc.Offset):
@@ -297,7 +345,7 @@ func main() {
 				w["error_injected_at_write"], w["send_error"] = k, fmt.Sprint(out.Err)
 				switch {
 				case !out.Returned:
-					res.Violation("target-error-replay-hangs", "Send did not return within 75 s after a target error", w)
+					res.Violation("target-error-replay-hangs", "Send did not return after a target error and made no progress for two 3 s windows", w)
 				case out.Err == nil:
 					res.Violation("target-error-swallowed|"+pathName(sc), fmt.Sprintf("the target answered an error to write %d of %d but Send returned nil", k, len(writes)), w)
 				case hasCp(out, sc.Offset):
@@ -320,7 +368,7 @@ func main() {
 				w := describe()
 				w["cancel"], w["send_error"] = label, fmt.Sprint(out.Err)
 				if !out.Returned {
-					res.Violation("cancelled-replay-hangs", "Send did not return within 75 s after cancellation", w)
+					res.Violation("cancelled-replay-hangs", "Send did not return after cancellation and made no progress for two 3 s windows", w)
 					return
 				}
 				complete := out.Err == nil || hasCp(out, sc.Offset)
